@@ -150,3 +150,19 @@ pub open spec fn zk_ties(zk: CL03ZKPoK, idx: Seq<usize>) -> bool {
 pub open spec fn eff_idx0(idx: Option<&[usize]>) -> Seq<usize> {
     match idx { Some(s) => s@, None => seq![0usize] }
 }
+
+// ---- proof of knowledge of a signature (CL03PoKSignature) ----------------------------------------------------------
+pub uninterp spec fn nisp5_accepts(p: NISPSignaturePoK, cpk: CL03CommitmentPublicKey, pk: CL03PublicKey, bases: Seq<Integer>, msgs: Seq<CL03Message>, idx: Seq<usize>, n: int) -> bool;
+
+pub open spec fn spok_core<CS: CLCiphersuite>(p: CL03PoKSignature, cpk: CL03CommitmentPublicKey, pk: CL03PublicKey, bases: Seq<Integer>, msgs: Seq<CL03Message>, idx: Seq<usize>, n: int) -> bool {
+    &&& nisp5_accepts(p.spok, cpk, pk, bases, msgs, idx, n)
+    &&& p.spok.Ce.value@ == p.range_proof_e.E@
+    &&& range_accepts(p.range_proof_e, cpk.g_bases@[0]@, cpk.h@, cpk.N@, ipow(2, (CS::le - 1) as nat) + 1, ipow(2, CS::le as nat) - 1)
+    &&& p.proofs_commited_mi@.len() >= idx.len() && p.range_proofs_commited_mi@.len() >= idx.len()
+    &&& forall|k: int| 0 <= k < idx.len() ==> nisp2sec_accepts::<CS>((#[trigger] p.proofs_commited_mi@[k]).value, p.proofs_commited_mi@[k].commitment, cpk.g_bases@[idx[k] as int]@, cpk.h@, cpk.N@)
+    &&& forall|k: int| 0 <= k < idx.len() ==> range_accepts(#[trigger] p.range_proofs_commited_mi@[k], cpk.g_bases@[idx[k] as int]@, cpk.h@, cpk.N@, 0, ipow(2, CS::lm as nat) - 1)
+}
+
+pub open spec fn spok_ties_mi(p: CL03PoKSignature, idx: Seq<usize>) -> bool {
+    forall|k: int| 0 <= k < idx.len() ==> (#[trigger] p.range_proofs_commited_mi@[k]).E@ == p.proofs_commited_mi@[k].commitment.value@
+}
